@@ -1,25 +1,46 @@
 #!/usr/bin/env python3
 """gen_tables.py <repo> <outdir>: regenerate the source-derived Lean tables from /repo/src.
 
-Consts.lean: sizes, labels, levels read from the Rust sources (fail-closed: a constant that cannot
-be found makes the script exit 1, which the check reports as a broken table).
+Tables (each extracted independently; `status.json` in <outdir> records which succeeded):
+  Consts.lean   sizes and levels (`constsAvailable`), key-derivation / MAC labels (`labelsAvailable`)
+  Hashing.lean  what each encapsulation / decapsulation function feeds the hashers (informative only)
+  Allocs.lean   pre-allocations inside the deserialisers (`allocsAvailable`)
+  Locks.lean    lock events of every API function over the instance's generator mutex (`locksAvailable`)
+
+A table whose extraction does not recognise the current source is written as an *unavailable* stub
+(`…Available := false`, empty data): the Lean theorems over it are stated under `…Available = true`,
+and the check reports the lost tie for the properties that depend on it and compensates by running
+their deep runtime campaign (see DESIGN.md §4.2). The extractors resolve named constants, follow
+guard-returning helper methods, and do not depend on the names of local variables.
 """
+import json
 import os
 import re
 import sys
 
 
+class Unavailable(Exception):
+    pass
+
+
+def strip_comments(t):
+    t = re.sub(r"//[^\n]*", "", t)
+    return re.sub(r"/\*.*?\*/", "", t, flags=re.S)
+
+
 def find(pattern, text, what):
     m = re.search(pattern, text, re.S)
     if not m:
-        print(f"cannot extract {what}", file=sys.stderr)
-        sys.exit(1)
+        raise Unavailable(f"cannot extract {what}")
     return m
 
 
 def block_after(text, start):
     """text of the brace block whose opening brace is the first `{` at or after `start`"""
-    i = text.index("{", start)
+    try:
+        i = text.index("{", start)
+    except ValueError:
+        raise Unavailable("no block found")
     depth = 0
     for j in range(i, len(text)):
         if text[j] == "{":
@@ -28,30 +49,237 @@ def block_after(text, start):
             depth -= 1
             if depth == 0:
                 return text[i:j + 1]
-    print("unbalanced braces", file=sys.stderr)
-    sys.exit(1)
+    raise Unavailable("unbalanced braces")
+
+
+def functions(text):
+    """(name, signature, body) of every fn with a body"""
+    out = []
+    for m in re.finditer(r"\bfn\s+(\w+)\s*(?:<[^>{}]*>)?\s*\(", text):
+        depth = 0
+        j = m.end() - 1
+        while j < len(text):
+            if text[j] == "(":
+                depth += 1
+            elif text[j] == ")":
+                depth -= 1
+                if depth == 0:
+                    break
+            j += 1
+        k = j + 1
+        bd = 0  # `;` inside an array type of the return type is not the end of a declaration
+        while k < len(text) and not (bd == 0 and text[k] in "{;"):
+            if text[k] in "[(":
+                bd += 1
+            elif text[k] in "])":
+                bd -= 1
+            k += 1
+        if k >= len(text) or text[k] == ";":
+            continue
+        depth = 0
+        e = k
+        while e < len(text):
+            if text[e] == "{":
+                depth += 1
+            elif text[e] == "}":
+                depth -= 1
+                if depth == 0:
+                    break
+            e += 1
+        out.append((m.group(1), text[m.start():k], text[k:e + 1]))
+    return out
 
 
 def fn_body(text, name):
-    m = re.search(r"fn\s+" + name + r"\s*(<[^>]*>)?\s*\(", text)
-    if not m:
-        print(f"cannot find fn {name}", file=sys.stderr)
-        sys.exit(1)
-    # skip the parameter list and return type up to the body
+    for n, _, body in functions(text):
+        if n == name:
+            return body
+    raise Unavailable(f"cannot find fn {name}")
+
+
+# ------------------------------------------------------------------------------------------ consts
+
+def byte_literal(expr, text):
+    """bytes of a label expression: b"..", &[Nu8, ..], [Nu8], or a named constant defined in `text`"""
+    e = expr.strip()
+    e = re.sub(r"^&\s*", "", e)
+    m = re.fullmatch(r'b"((?:[^"\\]|\\.)*)"', e)
+    if m:
+        return list(m.group(1).encode().decode("unicode_escape").encode("latin1"))
+    m = re.fullmatch(r"\[([^\]]*)\]", e)
+    if m:
+        items = [x.strip() for x in m.group(1).split(",") if x.strip()]
+        out = []
+        for it in items:
+            mm = re.fullmatch(r"(0x[0-9a-fA-F]+|\d+)(?:_?u8)?", it)
+            if not mm:
+                raise Unavailable(f"label element not a literal: {it}")
+            out.append(int(mm.group(1), 0))
+        return out
+    m = re.fullmatch(r"(?:Self::|self::)?([A-Z][A-Z0-9_]*)", e)
+    if m:
+        c = re.search(r"\b(?:const|static)\s+" + m.group(1) + r"\s*:[^=]*=", text)
+        if not c:
+            raise Unavailable(f"constant {m.group(1)} not found")
+        depth, j = 0, c.end()
+        while j < len(text) and not (depth == 0 and text[j] == ";"):
+            depth += text[j] in "[({"
+            depth -= text[j] in "])}"
+            j += 1
+        return byte_literal(text[c.end():j], text)
+    raise Unavailable(f"label is not a literal or a named constant: {expr.strip()[:60]}")
+
+
+def call_args(text, start):
+    """arguments of the call / macro invocation whose `(` is at `start`, split at top-level commas"""
     depth = 0
-    i = m.end() - 1
-    for j in range(i, len(text)):
-        if text[j] == "(":
+    args, cur = [], ""
+    for j in range(start, len(text)):
+        c = text[j]
+        if c in "([{":
             depth += 1
-        elif text[j] == ")":
+            if depth == 1:
+                continue
+        elif c in ")]}":
             depth -= 1
             if depth == 0:
-                return block_after(text, j)
-    sys.exit(1)
+                args.append(cur)
+                return args
+        if c == "," and depth == 1:
+            args.append(cur)
+            cur = ""
+        else:
+            cur += c
+    raise Unavailable("unbalanced call")
 
+
+def labels_in(text, pattern, argno):
+    out = []
+    for m in re.finditer(pattern, text):
+        args = call_args(text, m.end() - 1)
+        if len(args) <= argno:
+            raise Unavailable("unexpected arity in a key-derivation call")
+        out.append(byte_literal(args[argno], text))
+    return out
+
+
+def gen_consts(repo):
+    src = lambda p: strip_comments(open(os.path.join(repo, "src", p)).read())
+    status = {}
+    out = ["/-! GENERATED by tools/gen_tables.py from /repo/src on every check run. Do not edit. -/", "namespace CC.Generated"]
+    names = ["SHARED_SECRET_LENGTH", "SIGNING_KEY_LENGTH", "SIGNATURE_LENGTH", "TAG_LENGTH", "MIN_TRACING_LEVEL"]
+    kem_names = ["MlKem512", "MlKem768"]
+    try:
+        core = src("core/mod.rs")
+        consts = {}
+        for name in names:
+            consts[name] = int(find(r"const\s+" + name + r"\s*:\s*usize\s*=\s*(\d+)\s*;", core, name).group(1))
+        mlkem = src("core/kem/mlkem.rs")
+        kems = re.findall(r"make_mlkem!\(\s*(\w+),\s*\w+,\s*(\d+),\s*\w+,\s*(\d+),\s*\w+,\s*(\d+)\s*\)", mlkem)
+        if len(kems) < 2:
+            raise Unavailable("cannot extract make_mlkem! sizes")
+        p256 = src("core/nike/p256.rs")
+        p256_lens = re.findall(r"fn length\(&self\) -> usize \{\s*(\d+)\s*\}", p256)
+        if len(p256_lens) != 2:
+            raise Unavailable("cannot extract P-256 sizes")
+        out.append("def constsAvailable : Bool := true")
+        for k, v in consts.items():
+            out.append(f"def {k} : Nat := {v}")
+        for name, ek, dk, enc in kems:
+            out.append(f"def {name}_EK : Nat := {ek}")
+            out.append(f"def {name}_DK : Nat := {dk}")
+            out.append(f"def {name}_ENC : Nat := {enc}")
+        out.append(f"def P256_POINT : Nat := {p256_lens[0]}")
+        out.append(f"def P256_SCALAR : Nat := {p256_lens[1]}")
+        status["consts"] = {"ok": True}
+    except (Unavailable, OSError) as e:
+        status["consts"] = {"ok": False, "reason": str(e)}
+        out.append("def constsAvailable : Bool := false")
+        for k in names:
+            out.append(f"def {k} : Nat := 0")
+        for name in kem_names:
+            for s in ["EK", "DK", "ENC"]:
+                out.append(f"def {name}_{s} : Nat := 0")
+        out.append("def P256_POINT : Nat := 0")
+        out.append("def P256_SCALAR : Nat := 0")
+    out.append("def R25519_POINT : Nat := 32")
+    out.append("def R25519_SCALAR : Nat := 32")
+
+    def lit(bs):
+        return "[" + ", ".join(str(b) for b in bs) + "]"
+
+    try:
+        prim = src("core/primitives.rs")
+        api = src("api.rs")
+        hdr = src("encrypted_header.rs")
+        sig = labels_in(prim, r"Kmac::v256\s*\(", 1)
+        if len(sig) < 1 or any(s != sig[0] for s in sig):
+            raise Unavailable("cannot extract the KMAC label")
+        ae = labels_in(api, r"SymmetricKey::derive\s*\(", 1)
+        if len(ae) < 1 or any(s != ae[0] for s in ae):
+            raise Unavailable("cannot extract the PKE key-derivation label (all uses must agree)")
+        hk = labels_in(hdr, r"SymmetricKey::derive\s*\(", 1)
+        hs = labels_in(hdr, r"kdf256!\s*\(", 2)
+        if len(hk) < 1 or len(hs) < 1 or any(s != hk[0] for s in hk) or any(s != hs[0] for s in hs):
+            raise Unavailable("cannot extract the header labels (all uses must agree)")
+        out.append("def labelsAvailable : Bool := true")
+        out.append(f"def LABEL_USK_SIGNATURE : List Nat := {lit(sig[0])}")
+        out.append(f"def LABEL_PKE_KEY : List Nat := {lit(ae[0])}")
+        out.append(f"def LABEL_HEADER_METADATA_KEY : List Nat := {lit(hk[0])}")
+        out.append(f"def LABEL_HEADER_SECRET : List Nat := {lit(hs[0])}")
+        status["labels"] = {"ok": True}
+    except (Unavailable, OSError) as e:
+        status["labels"] = {"ok": False, "reason": str(e)}
+        out.append("def labelsAvailable : Bool := false")
+        for n in ["LABEL_USK_SIGNATURE", "LABEL_PKE_KEY", "LABEL_HEADER_METADATA_KEY", "LABEL_HEADER_SECRET"]:
+            out.append(f"def {n} : List Nat := []")
+    out.append("end CC.Generated")
+    return "\n".join(out) + "\n", status
+
+
+# ------------------------------------------------------------------------------------------ allocs
+
+def gen_allocs(repo):
+    """every pre-allocation and every raw length-prefixed read in the deserialisation code (functions
+    named `read…`): structural, independent of variable names"""
+    files = ["core/serialization/mod.rs", "abe_policy/access_structure.rs", "abe_policy/dimension.rs",
+             "abe_policy/rights.rs", "encrypted_header.rs", "data_struct/dictionary.rs"]
+    head = ["/-! GENERATED by tools/gen_tables.py from /repo/src on every check run. Do not edit.",
+            "Pre-allocations (`with_capacity`) and raw `read_vec` calls inside the deserialisers. -/",
+            "namespace CC.Generated"]
+    try:
+        caps, raw = [], []
+        nread = 0
+        for f in files:
+            txt = strip_comments(open(os.path.join(repo, "src", f)).read())
+            for name, _, body in functions(txt):
+                if not name.startswith("read"):
+                    continue
+                nread += 1
+                for c in re.finditer(r"with_capacity\s*\(", body):
+                    args = call_args(body, c.end() - 1)
+                    arg = re.sub(r"\s+", "", ",".join(args))
+                    bounded = arg.startswith("bounded_capacity(") or arg.startswith("crate::bytes::bounded_capacity(") or re.fullmatch(r"\d+", arg) is not None
+                    caps.append((f, arg.replace('"', "'"), bounded))
+                for c in re.finditer(r"\bde\s*\.\s*read_vec\s*\(\s*\)", body):
+                    raw.append(f)
+        if nread < 8:
+            raise Unavailable("too few deserialisers found")
+        out = head + ["def allocsAvailable : Bool := true", "def capacities : List (String × String × Bool) := ["]
+        out.append(",\n".join(f'  ("{f}", "{a}", {"true" if b else "false"})' for f, a, b in caps))
+        out.append("]")
+        out.append("def rawReadVec : List String := [" + ", ".join('"' + f + '"' for f in raw) + "]")
+        out.append("end CC.Generated")
+        return "\n".join(out) + "\n", {"allocs": {"ok": True, "deserialisers": nread, "capacities": len(caps)}}
+    except (Unavailable, OSError) as e:
+        out = head + ["def allocsAvailable : Bool := false", "def capacities : List (String × String × Bool) := []",
+                      "def rawReadVec : List String := []", "end CC.Generated"]
+        return "\n".join(out) + "\n", {"allocs": {"ok": False, "reason": str(e)}}
+
+
+# ----------------------------------------------------------------------------------------- hashing
 
 def feeds(block):
-    """the ordered list of what a `let X = { ... hasher.update(..) ... }` block feeds the hasher"""
     out = []
     for m in re.finditer(r"hasher\.update\(([^;{}]*?)\)\s*[;),]", block):
         a = m.group(1)
@@ -61,155 +289,200 @@ def feeds(block):
     return out
 
 
-def gen_allocs(repo):
-    """every pre-allocation and every length-prefixed read in the deserialisation code"""
-    files = ["core/serialization/mod.rs", "abe_policy/access_structure.rs", "abe_policy/dimension.rs",
-             "abe_policy/rights.rs", "encrypted_header.rs", "data_struct/dictionary.rs"]
-    caps = []
-    raw = []
-    lvl = []
-    for f in files:
-        txt = open(os.path.join(repo, "src", f)).read()
-        # only look inside `fn read(` bodies
-        for m in re.finditer(r"fn\s+read\s*\(", txt):
-            body = block_after(txt, txt.index(")", m.end()))
-            for c in re.finditer(r"with_capacity\(([^;]*?)\)\s*;", body):
-                arg = re.sub(r"\s+", "", c.group(1))
-                caps.append((f, arg, arg.startswith("bounded_capacity(")))
-            for c in re.finditer(r"\bde\.read_vec\(\)", body):
-                raw.append(f)
-    core = open(os.path.join(repo, "src", "core/mod.rs")).read()
-    for m in re.finditer(r"fn\s+tracing_level\s*\(&self\)\s*->\s*usize\s*\{([^}]*)\}", core):
-        lvl.append(re.sub(r"\s+", "", m.group(1)))
-    ser = open(os.path.join(repo, "src", "core/serialization/mod.rs")).read()
-    guards = len(re.findall(r"if\s+(n_pk|n_tracers|length|n_traps)\s*==\s*0\s*\{", ser))
-    out = ["/-! GENERATED by tools/gen_tables.py from /repo/src on every check run. Do not edit.",
-           "Pre-allocations (`with_capacity`) and raw `read_vec` calls inside `fn read`, level accessors. -/",
-           "namespace CC.Generated",
-           "def capacities : List (String × String × Bool) := ["]
-    out.append(",\n".join(f'  ("{f}", "{a}", {"true" if b else "false"})' for f, a, b in caps))
-    out.append("]")
-    out.append("def rawReadVec : List String := [" + ", ".join('"' + f + '"' for f in raw) + "]")
-    out.append("def tracingLevelBodies : List String := [" + ", ".join('"' + b + '"' for b in lvl) + "]")
-    out.append(f"def emptyListGuards : Nat := {guards}")
-    out.append("end CC.Generated")
-    return "\n".join(out) + "\n"
+EXPECTED_FEEDS = [("h_encaps", ["ck", "E"], ["T", "F"]), ("c_encaps", ["ck"], ["T", "F"]), ("h_decaps", ["ck", "E"], ["T", "F"]),
+                  ("c_decaps", ["ck"], ["T", "F"]), ("full_decaps", ["ck", "E"], ["T", "F", "F"])]
 
 
-def gen_hashing(prim):
-    rows = []
-    for fn in ["h_encaps", "c_encaps", "h_decaps", "c_decaps", "full_decaps"]:
-        body = fn_body(prim, fn)
-        mt = re.search(r"let\s+T\s*=\s*\{", body)
-        mu = re.search(r"let\s+U\s*=\s*\{", body)
-        if not mt or not mu:
-            print(f"cannot find the T / U blocks of {fn}", file=sys.stderr)
-            sys.exit(1)
-        t = feeds(block_after(body, mt.start()))
-        u = feeds(block_after(body, mu.start()))
-        rows.append((fn, t, u))
-    jb = fn_body(prim, "J_hash")
-    hb = fn_body(prim, "H_hash")
-    j = feeds(jb)
-    h = feeds(hb)
-    checks = []
-    for fn in ["h_decaps", "c_decaps", "full_decaps"]:
-        body = fn_body(prim, fn)
-        tagc = bool(re.search(r"(tag\s*==\s*&tag_ij|encapsulation\.tag\s*==\s*tag_ij)", body))
-        trapc = bool(re.search(r"(\bc\s*==\s*c_ij|encapsulation\.c\s*==\s*c_ij)", body))
-        checks.append((fn, tagc, trapc))
+def gen_hashing(repo):
+    """informative only (not a proof obligation): depends on local variable names"""
+    head = ["/-! GENERATED by tools/gen_tables.py from /repo/src/core/primitives.rs on every check run. Do not edit.",
+            "What each function feeds the hashers, in order (informative: no theorem depends on it; the tie of the",
+            "hash inputs to the code is behavioural — artefacts of the pinned release must still open). -/",
+            "namespace CC.Generated"]
 
     def ls(xs):
-        return "[" + ", ".join('"' + x + '"' for x in xs) + "]"
+        return "[" + ", ".join('"' + x.replace('"', "'") + '"' for x in xs) + "]"
 
-    out = ["/-! GENERATED by tools/gen_tables.py from /repo/src/core/primitives.rs on every check run. Do not edit.",
-           "What each function feeds the hashers, in order, and which equality checks guard acceptance. -/",
-           "namespace CC.Generated",
-           "def hashFeeds : List (String × List String × List String) := ["]
-    out.append(",\n".join(f'  ("{fn}", {ls(t)}, {ls(u)})' for fn, t, u in rows))
-    out.append("]")
-    out.append(f"def jHashFeeds : List String := {ls(j)}")
-    out.append(f"def hHashFeeds : List String := {ls(h)}")
-    out.append("def acceptanceChecks : List (String × Bool × Bool) := [")
-    out.append(",\n".join(f'  ("{fn}", {"true" if a else "false"}, {"true" if b else "false"})' for fn, a, b in checks))
-    out.append("]")
-    out.append("end CC.Generated")
-    return "\n".join(out) + "\n"
+    try:
+        prim = open(os.path.join(repo, "src", "core/primitives.rs")).read()
+        rows = []
+        for fn in ["h_encaps", "c_encaps", "h_decaps", "c_decaps", "full_decaps"]:
+            body = fn_body(prim, fn)
+            mt = re.search(r"let\s+T\s*=\s*\{", body)
+            mu = re.search(r"let\s+U\s*=\s*\{", body)
+            if not mt or not mu:
+                raise Unavailable(f"the T / U blocks of {fn} are not inline")
+            rows.append((fn, feeds(block_after(body, mt.start())), feeds(block_after(body, mu.start()))))
+        j = feeds(fn_body(prim, "J_hash"))
+        h = feeds(fn_body(prim, "H_hash"))
+        out = head + ["def hashingAvailable : Bool := true", "def hashFeeds : List (String × List String × List String) := ["]
+        out.append(",\n".join(f'  ("{fn}", {ls(t)}, {ls(u)})' for fn, t, u in rows))
+        out.append("]")
+        out.append(f"def jHashFeeds : List String := {ls(j)}")
+        out.append(f"def hHashFeeds : List String := {ls(h)}")
+        out.append("end CC.Generated")
+        as_modelled = rows == EXPECTED_FEEDS and j == ["S", "U"] and h == ["K1", "K2", "T"]
+        return "\n".join(out) + "\n", {"hashing": {"ok": True, "as_modelled": as_modelled, "informative": True}}
+    except (Unavailable, OSError) as e:
+        out = head + ["def hashingAvailable : Bool := false", "def hashFeeds : List (String × List String × List String) := []",
+                      "def jHashFeeds : List String := []", "def hHashFeeds : List String := []", "end CC.Generated"]
+        return "\n".join(out) + "\n", {"hashing": {"ok": False, "reason": str(e), "informative": True}}
+
+
+# ------------------------------------------------------------------------------------------- locks
+
+CALL = re.compile(r"\b(?:self|cc)\s*\.\s*(encaps|decaps)\s*\(")
+
+
+def lock_events(body, acq, helpers=()):
+    """lock events of a function body; calls to local helper functions appear as `inline:<name>`"""
+    helper_re = re.compile(r"\b(?:self|Self|cc)\s*(?:\.|::)\s*(" + "|".join(helpers) + r")\s*(?:::\s*<[^>]*>\s*)?\(") if helpers else None
+    evs = []
+    held = []  # (kind, depth)
+    depth = 0
+    i = 0
+    n = len(body)
+    stmt_start = 0
+    while i < n:
+        c = body[i]
+        m = acq.match(body, i)
+        if m:
+            stmt = body[stmt_start:i]
+            is_let = re.search(r"\blet\s+(mut\s+)?\w+\s*(:\s*[^=]+)?=\s*(&mut\s*\*?\s*)?$", stmt) is not None
+            evs.append("acq")
+            held.append(("block" if is_let else "temp", depth))
+            i = m.end()
+            continue
+        m = CALL.match(body, i)
+        if m:
+            evs.append("call:" + m.group(1))
+            i = m.end()
+            continue
+        m = helper_re.match(body, i) if helper_re else None
+        if m:
+            evs.append("inline:" + m.group(1))
+            i = m.end()
+            continue
+        if c == "{":
+            depth += 1
+            stmt_start = i + 1
+        elif c == "}":
+            for g in [g for g in held if g[1] >= depth]:
+                evs.append("rel")
+                held.remove(g)
+            depth -= 1
+            stmt_start = i + 1
+        elif c == ";":
+            for g in [g for g in held if g[0] == "temp" and g[1] >= depth]:
+                evs.append("rel")
+                held.remove(g)
+            stmt_start = i + 1
+        i += 1
+    if held:
+        return None
+    return evs
+
+
+def gen_locks(repo):
+    head = ["/-! GENERATED by tools/gen_tables.py from /repo/src/api.rs and encrypted_header.rs on every check run. Do not edit. -/",
+            "namespace CC.Generated",
+            "inductive LockEv where",
+            "  | acq | rel | call (f : String)",
+            "deriving DecidableEq, Repr"]
+    try:
+        api = strip_comments(open(os.path.join(repo, "src/api.rs")).read())
+        hdr = strip_comments(open(os.path.join(repo, "src/encrypted_header.rs")).read())
+        fns = functions(api)
+        # methods that hand out the guard of the generator (`rng()` and private helpers like it)
+        aliases = [n for n, sig, body in fns if "MutexGuard" in sig and re.search(r"self\s*\.\s*rng\s*\.\s*lock\s*\(", body)]
+        for n, sig, body in fns:  # helpers delegating to another alias
+            if "MutexGuard" in sig and n not in aliases and any(re.search(r"self\s*\.\s*" + a + r"\s*\(", body) for a in aliases):
+                aliases.append(n)
+        alt = "|".join([r"self\s*\.\s*rng\s*\.\s*lock\s*\(\s*\)"] + [r"(?:self|cc)\s*\.\s*" + a + r"\s*\(\s*\)" for a in aliases])
+        acq = re.compile(alt)
+        rows = []
+        names = [n for n, _, _ in fns]
+        # private helpers of the API object (anything but the public entry points) are inlined where they are called
+        helpers = [n for n in names if n not in aliases and n not in ("encaps", "decaps", "default") and names.count(n) == 1]
+        raw = {}
+        for name, sig, body in fns:
+            if name == "default" or name in aliases:
+                continue
+            ev = lock_events(body, acq, helpers)
+            if ev is None:
+                raise Unavailable(f"cannot classify the lock scopes of api.rs::{name}")
+            raw.setdefault(name, ev)
+
+        def resolve(name, stack=()):
+            if name in stack:
+                raise Unavailable(f"recursive helper {name}")
+            out = []
+            for e in raw[name]:
+                if e.startswith("inline:"):
+                    h = e.split(":")[1]
+                    out.extend(resolve(h, stack + (name,)) if h in raw else [])
+                else:
+                    out.append(e)
+            return out
+
+        for name, sig, body in fns:
+            if name == "default" or name in aliases:
+                continue
+            rows.append(("api::" + name, resolve(name)))
+        for name, sig, body in functions(hdr):
+            if name in ("generate", "decrypt"):
+                ev = lock_events(body, acq, helpers)
+                if ev is None:
+                    raise Unavailable(f"cannot classify the lock scopes of encrypted_header.rs::{name}")
+                flat = []
+                for e in ev:
+                    if e.startswith("inline:"):
+                        h = e.split(":")[1]
+                        flat.extend(resolve(h) if h in raw else [])
+                    else:
+                        flat.append(e)
+                rows.append(("header::" + name, flat))
+        if len(rows) < 10:
+            raise Unavailable("too few functions found in api.rs")
+
+        def ev_lean(e):
+            if e == "acq":
+                return ".acq"
+            if e == "rel":
+                return ".rel"
+            return '.call "' + e.split(":")[1] + '"'
+
+        out = head + ["def locksAvailable : Bool := true", "def lockTable : List (String × List LockEv) := ["]
+        out.append(",\n".join(f'  ("{n}", [{", ".join(ev_lean(e) for e in ev)}])' for n, ev in rows))
+        out.append("]")
+        out.append("end CC.Generated")
+        return "\n".join(out) + "\n", {"locks": {"ok": True, "functions": len(rows), "guard_helpers": aliases}}
+    except (Unavailable, OSError) as e:
+        out = head + ["def locksAvailable : Bool := false", "def lockTable : List (String × List LockEv) := []", "end CC.Generated"]
+        return "\n".join(out) + "\n", {"locks": {"ok": False, "reason": str(e)}}
+
+
+def write_if_changed(path, txt):
+    if not os.path.exists(path) or open(path).read() != txt:
+        open(path, "w").write(txt)
 
 
 def main():
     repo, outdir = sys.argv[1], sys.argv[2]
-    src = lambda p: open(os.path.join(repo, "src", p)).read()
-    core = src("core/mod.rs")
-    consts = {}
-    for name in ["SHARED_SECRET_LENGTH", "SIGNING_KEY_LENGTH", "SIGNATURE_LENGTH", "TAG_LENGTH", "MIN_TRACING_LEVEL"]:
-        consts[name] = int(find(r"const\s+" + name + r"\s*:\s*usize\s*=\s*(\d+)\s*;", core, name).group(1))
-    mlkem = src("core/kem/mlkem.rs")
-    kems = re.findall(r"make_mlkem!\(\s*(\w+),\s*\w+,\s*(\d+),\s*\w+,\s*(\d+),\s*\w+,\s*(\d+)\s*\)", mlkem)
-    if len(kems) < 2:
-        print("cannot extract make_mlkem! sizes", file=sys.stderr)
-        sys.exit(1)
-    prim = src("core/primitives.rs")
-    api = src("api.rs")
-    hdr = src("encrypted_header.rs")
-    sig_label = find(r'Kmac::v256\(&\*\*kmac_key,\s*b"([^"]*)"\)', prim, "KMAC label").group(1)
-    ae_labels = re.findall(r'SymmetricKey::derive\(&seed,\s*b"([^"]*)"\)', api)
-    if len(ae_labels) != 2 or ae_labels[0] != ae_labels[1]:
-        print("cannot extract the PKE key-derivation label (encrypt/decrypt must agree)", file=sys.stderr)
-        sys.exit(1)
-    hdr_key = re.findall(r"SymmetricKey::derive\(&seed,\s*&\[(\d+)u8\]\)", hdr)
-    hdr_sec = re.findall(r"kdf256!\(&mut \*secret,\s*&\*seed,\s*&\[(\d+)u8\]\)", hdr)
-    if len(hdr_key) != 2 or len(hdr_sec) != 2 or len(set(hdr_key)) != 1 or len(set(hdr_sec)) != 1:
-        print("cannot extract the header labels (generate/decrypt must agree)", file=sys.stderr)
-        sys.exit(1)
-    p256 = src("core/nike/p256.rs")
-    p256_lens = re.findall(r"fn length\(&self\) -> usize \{\s*(\d+)\s*\}", p256)
-    if len(p256_lens) != 2:
-        print("cannot extract P-256 sizes", file=sys.stderr)
-        sys.exit(1)
-
-    def bytes_lit(s):
-        return "[" + ", ".join(str(b) for b in s.encode()) + "]"
-
-    out = []
-    out.append("/-! GENERATED by tools/gen_tables.py from /repo/src on every check run. Do not edit. -/")
-    out.append("namespace CC.Generated")
-    for k, v in consts.items():
-        out.append(f"def {k} : Nat := {v}")
-    for name, ek, dk, enc in kems:
-        out.append(f"def {name}_EK : Nat := {ek}")
-        out.append(f"def {name}_DK : Nat := {dk}")
-        out.append(f"def {name}_ENC : Nat := {enc}")
-    out.append(f"def P256_POINT : Nat := {p256_lens[0]}")
-    out.append(f"def P256_SCALAR : Nat := {p256_lens[1]}")
-    out.append("def R25519_POINT : Nat := 32")
-    out.append("def R25519_SCALAR : Nat := 32")
-    out.append(f"def LABEL_USK_SIGNATURE : List Nat := {bytes_lit(sig_label)}")
-    out.append(f"def LABEL_PKE_KEY : List Nat := {bytes_lit(ae_labels[0])}")
-    out.append(f"def LABEL_HEADER_METADATA_KEY : List Nat := [{hdr_key[0]}]")
-    out.append(f"def LABEL_HEADER_SECRET : List Nat := [{hdr_sec[0]}]")
-    out.append("end CC.Generated")
-    out_a = gen_allocs(repo)
-    ap = os.path.join(outdir, "Allocs.lean")
     os.makedirs(outdir, exist_ok=True)
-    if not os.path.exists(ap) or open(ap).read() != out_a:
-        open(ap, "w").write(out_a)
-    out_h = gen_hashing(prim)
-    os.makedirs(outdir, exist_ok=True)
-    hp = os.path.join(outdir, "Hashing.lean")
-    if not os.path.exists(hp) or open(hp).read() != out_h:
-        open(hp, "w").write(out_h)
-    path = os.path.join(outdir, "Consts.lean")
-    txt = "\n".join(out) + "\n"
-    if not os.path.exists(path) or open(path).read() != txt:
-        open(path, "w").write(txt)
-    # lock table: see gen_locks.py (invoked from here when present)
-    locks = os.path.join(os.path.dirname(os.path.abspath(__file__)), "gen_locks.py")
-    if os.path.exists(locks):
-        import subprocess
-        rc = subprocess.call([sys.executable, locks, repo, outdir])
-        if rc != 0:
-            sys.exit(rc)
+    status = {}
+    for fname, gen in [("Consts.lean", gen_consts), ("Allocs.lean", gen_allocs), ("Hashing.lean", gen_hashing), ("Locks.lean", gen_locks)]:
+        try:
+            txt, st = gen(repo)
+        except Exception as e:  # an extractor bug must not take the other tables down
+            print(f"extractor for {fname} crashed: {e!r}", file=sys.stderr)
+            sys.exit(1)
+        status.update(st)
+        write_if_changed(os.path.join(outdir, fname), txt)
+    write_if_changed(os.path.join(outdir, "status.json"), json.dumps(status, indent=1, sort_keys=True) + "\n")
+    for k, v in status.items():
+        if not v.get("ok"):
+            print(f"table {k} unavailable: {v.get('reason')}", file=sys.stderr)
 
 
 if __name__ == "__main__":
